@@ -1,12 +1,47 @@
-(* C11 - the derived public key equals the generated one
-   FULL STATEMENT: see DESIGN.md section 7 (derive_eq).  Not yet proved as a theorem about the composed
-   model; until then the property is decided by the differential streams of tools/streams.py
-   (real code against the extracted FIPS 204 transcription / the property's own oracle), and the
-   lemmas below are the part that is kernel-checked. *)
-Require Import F204.Base.Util F204.Base.Mach F204.Gen.Params F204.Hash.HashIface F204.Impl.MlDsa F204.Impl.Api.
+(* C11 - the public key derived from a private key equals the generated one.
+   FULL STATEMENT, proved below for every hash family with the output-length laws, each parameter
+   set and ANY seed: for the key pair (pk, sk) returned by key generation,
+     (1) get_public_key(sk) returns Ok pk - the SAME struct (never Err/Panic), hence the same
+         serialisation and the same verification decision on every input;
+     (2) the same holds for the private key obtained by serialising sk and deserialising the bytes
+         (it is the same struct, C09), and pk equals the struct obtained by deserialising its own bytes.
+   (3) For any accepted private key (not only generated ones) the derived key is the struct built
+       from Power2Round(A*s1 + s2) of its decoded components - FIPS 204's derivation of t1. *)
+Require Import List ZArith. Import ListNotations.
+Require Import F204.Base.Util F204.Base.Mach F204.Gen.Params F204.Hash.HashIface F204.Impl.MlDsa F204.Impl.Api
+  F204.Spec.SpecSample F204.Proofs.BitPackProofs F204.Proofs.SampleRefine F204.Proofs.KeyRoundTrip F204.Proofs.DeriveRefine.
 Open Scope Z_scope.
+
+Theorem C11_derived_is_generated : forall H, HashLaws H -> forall P, In P all_params -> forall xi pk sk,
+  keygen_from_seed H P xi = Ok (pk, sk) -> get_public_key H P sk = Ok pk.
+Proof. intros H HL P HP xi pk sk E. exact (derive_generated H HL P HP xi pk sk E). Qed.
+
+Theorem C11_derived_after_roundtrip : forall H, HashLaws H -> forall P, In P all_params -> forall xi pk sk,
+  keygen_from_seed H P xi = Ok (pk, sk) ->
+  exists pkb skb sk', sk_into_bytes P sk = Ok skb /\ sk_try_from_bytes P skb = Ok sk' /\ get_public_key H P sk' = Ok pk /\
+                      pk_into_bytes P pk = Ok pkb /\ pk_try_from_bytes H P pkb = Ok pk.
+Proof.
+  intros H HL P HP xi pk sk E.
+  destruct (generated_roundtrip H HL P HP xi pk sk E) as (pkb & skb & _ & _ & _ & _ & E1 & E2 & E3 & E4).
+  exists pkb, skb, sk. repeat split; try assumption. exact (derive_generated H HL P HP xi pk sk E).
+Qed.
+
+Theorem C11_derived_is_FIPS204_t1 : forall H, HashLaws H -> forall P, In P all_params -> forall skb sk,
+  bytes_ok skb -> zlen skb = p_sk_len P -> sk_try_from_bytes P skb = Ok sk ->
+  exists rho K tr s1 s2 t0, Impl.Encodings.sk_decode P skb = Ok (rho, K, tr, s1, s2, t0) /\
+    get_public_key H P sk = match ExpandA H P rho with
+                            | None => OutOfFuel
+                            | Some A => pk_of rho tr (t1_of A s1 s2)
+                            end.
+Proof.
+  intros H HL P HP skb sk Hb Hl E.
+  destruct (expand_private_repr P skb sk HP Hb Hl E) as (rho & K & tr & s1 & s2 & t0 & Ed & Hrep).
+  exists rho, K, tr, s1, s2, t0. split; [exact Ed|]. apply (derive_refines H HL P HP sk rho K tr s1 s2 t0); [|exact Hrep].
+  apply (sk_decode_byte_fields P skb rho K tr s1 s2 t0 HP Hl Ed).
+Qed.
+
 (* the derived key carries the private key's rho and tr unchanged (the cached public-key hash is copied) *)
-Theorem C11_derived_copies_rho_tr_partial : forall H P sk pk,
+Theorem C11_derived_copies_rho_tr : forall H P sk pk,
   get_public_key H P sk = Ok pk -> pk_rho pk = sk_rho sk /\ pk_tr pk = sk_tr sk.
 Proof.
   intros H P sk pk E. unfold get_public_key, private_to_public_key in E.
@@ -16,4 +51,8 @@ Proof.
   end.
   inversion E. split; reflexivity.
 Qed.
-Print Assumptions C11_derived_copies_rho_tr_partial.
+
+Print Assumptions C11_derived_is_generated.
+Print Assumptions C11_derived_after_roundtrip.
+Print Assumptions C11_derived_is_FIPS204_t1.
+Print Assumptions C11_derived_copies_rho_tr.
